@@ -61,21 +61,23 @@ Checks(r) ==
                 FLe(FSub(prev[1], FMul(FNorm(SL, -19), FAdd(prev[2], LLOf(r)[2]))), FAdd(LLOf(r)[1], r.mslack))>>,
           \* fine-grained comparison: the saliency-weighted terms s_n ell_n in fixed point (units 2^-10, exact integer
           \* sum) plus a small Flt remainder; resolution ~1e-6, tolerance 2^-15 + mslack
-          <<"fixed_point_consistent", FixOK(r)>>,
-          <<"monotone_fine", (~r.first /\ prev # <<>> /\ prev[3] /\ GuardFree(r)) =>
+          <<"fixed_point_consistent", r.fine_ok => FixOK(r)>>,
+          <<"monotone_fine", (~r.first /\ prev # <<>> /\ prev[3] /\ GuardFree(r) /\ r.fine_ok /\ prev[6]) =>
                 LET dhi == FixHi(r) - prev[4]
                     d == FAdd(FInt(dhi) \* units 2^-10
                               , FMul(FPow2(10), FSub(FixLo(r), prev[5])))
                 IN  FLe(FNeg(FAdd(FPow2(-5), FMul(FPow2(10), r.mslack))), d)>>,
           <<"own_log_likelihood", OwnOK(r)>> >>
-NT(r) == r.exc = "" /\ ~r.first /\ prev # <<>> /\ prev[3] /\ GuardFree(r)
+NT(r) == r.exc = "" /\ ~r.first /\ prev # <<>> /\ prev[3]
+         /\ (\A i \in 1..Len(r.ell.data) : IsFlt(r.ell.data[i])) /\ (\A i \in 1..Len(r.lp.data) : IsFlt(r.lp.data[i])) /\ GuardFree(r)
          /\ FLt(FAdd(prev[1], FMul(FNorm(SL, -19), FAdd(prev[2], LLOf(r)[2]))), LLOf(r)[1])    \* a real increase
 Init == l = 1 /\ verdicts = <<>> /\ prev = <<>>
 Next == /\ l <= Len(Trace)
         /\ LET r == Trace[l] IN
              /\ verdicts' = Append(verdicts, Verdict(r.id, FailedOf(Checks(r)), NT(r), ""))
              /\ prev' = IF r.exc = "" /\ (\A i \in 1..Len(r.ell.data) : IsFlt(r.ell.data[i]))
-                        THEN <<LLOf(r)[1], LLOf(r)[2], GuardFree(r), FixHi(r), FixLo(r)>> ELSE <<>>
+                        THEN <<LLOf(r)[1], LLOf(r)[2], GuardFree(r), IF r.fine_ok THEN FixHi(r) ELSE 0,
+                               IF r.fine_ok THEN FixLo(r) ELSE FZero, r.fine_ok>> ELSE <<>>
         /\ l' = l + 1
 Spec == Init /\ [][Next]_vars
 FlushInv == Flush(l, verdicts)
